@@ -115,12 +115,6 @@ def isPrefixOf (a b : NameKey) : Bool := a.length ≤ b.length && b.take a.lengt
 def passes (p : Pending) (exact : Bool) (digest : Bytes) : Bool :=
   (p.canBePrefix || exact) && (p.digest.isEmpty || p.digest == digest)
 
-/-- `Component.get_type(c) == TYPE_IMPLICIT_SHA256` (type number 1) -/
-def isDigestComp (c : Bytes) : Bool :=
-  match parseTlNum c 0 with
-  | .ok (t, _) => t == 1
-  | .error _ => false
-
 /-- `Component.get_value(c)`: the bytes after Type and Length -/
 def compValue (c : Bytes) : Bytes :=
   match parseTlNum c 0 with
@@ -129,6 +123,14 @@ def compValue (c : Bytes) : Bytes :=
     | .ok (_, sl) => c.drop (st + sl)
     | .error _ => []
   | .error _ => []
+
+/-- an ImplicitSha256DigestComponent: Type 1 and a 32-byte value (a Type-1 component of another length is not a
+    digest - it is an ordinary component of a name no Data can have; repaired in /repo: it used to be split off
+    like a digest, so a Nack naming `/a/<empty digest>` nacked the pending Interest `/a`) -/
+def isDigestComp (c : Bytes) : Bool :=
+  match parseTlNum c 0 with
+  | .ok (t, _) => t == 1 && (compValue c).length == 32
+  | .error _ => false
 
 /-- how an Interest name is filed: table node name and implicit digest (`[]` = none), as
     `express_raw_interest` and the repaired `_on_nack` split it -/
